@@ -7,3 +7,44 @@ pub fn fmt_format_stub(_args: core::fmt::Arguments<'_>) -> String {
     String::new()
 }
 
+
+/// Model of `<[T]>::sort_unstable_by_key` / `sort_by_key`: insertion sort with the caller's key
+/// function (std's pattern-defeating quicksort + sorting networks do not get through CBMC even for
+/// three elements). Stability is irrelevant for the callers (keys are unique account names).
+pub fn slice_sort_by_key_model<T, K: Ord, F: FnMut(&T) -> K>(s: &mut [T], mut f: F) {
+    let n = s.len();
+    let mut i = 1;
+    while i < n {
+        let mut j = i;
+        while j > 0 {
+            let gt = f(&s[j - 1]) > f(&s[j]);
+            if !gt {
+                break;
+            }
+            s.swap(j - 1, j);
+            j -= 1;
+        }
+        i += 1;
+    }
+}
+
+/// Model of `core::slice::sort::unstable::sort` (the engine behind sort_unstable / sort_unstable_by /
+/// sort_unstable_by_key): insertion sort with the caller's comparison.
+pub fn unstable_sort_model<T, F>(v: &mut [T], is_less: &mut F)
+where
+    F: FnMut(&T, &T) -> bool,
+{
+    let n = v.len();
+    let mut i = 1;
+    while i < n {
+        let mut j = i;
+        while j > 0 {
+            if !is_less(&v[j], &v[j - 1]) {
+                break;
+            }
+            v.swap(j - 1, j);
+            j -= 1;
+        }
+        i += 1;
+    }
+}
